@@ -154,6 +154,7 @@ class Arm(Robot):
         self._end_effector_pos_global = self._end_effector_home.copy()
         self._original_end_effector_home = self._end_effector_home.copy()
         self._base_pos_global = base_pos_global.copy()
+        self._helper_refresh_body_screws()
 
     """
     Kinematics
@@ -896,12 +897,16 @@ class Arm(Robot):
         new_home = fsr.localToGlobal(self._end_effector_home, old_to_new)
         self._end_effector_home = new_home
         self._helper_determine_eef_to_last_joint()
+        self._helper_refresh_body_screws()
+        self.FK(self._theta)
 
     #Converted to Python - Joshua
     def restoreOriginalEE(self) -> None:
         """Restore the original End effector configuration of the arm."""
         self._end_effector_home = self._original_end_effector_home
         self._helper_determine_eef_to_last_joint()
+        self._helper_refresh_body_screws()
+        self.FK(self._theta)
 
     def getScrewList(self) -> 'np.ndarray[float]':
         """
@@ -1454,6 +1459,15 @@ class Arm(Robot):
                 atol = 1e-9, rtol = 0):
             self._eef_to_last_joint = fsr.globalToLocal(
                     self._end_effector_home, self._joint_homes_global[-1])
+
+    def _helper_refresh_body_screws(self):
+        """
+        Re-derive the body screw list from the current home pose and space screw list.
+        """
+        for i in range(0, self.num_dof):
+            self.screw_list_body[:, i] = (
+                fmr.Adjoint(self._end_effector_home.inv().gTM()) @
+                self.screw_list[:, i])
 
     def _helper_ensure_theta_not_none(self, theta : 'np.ndarray[float]') -> 'np.ndarray[float]':
         """
